@@ -135,6 +135,19 @@ pub struct RefWriter<'a> {
     pub ghost_objects: bool,
 }
 
+impl RefWriter<'_> {
+    /// number for an object the writer adds on its own: the next number after everything used so far, or (feature
+    /// "container-number-from-gap") a number below the maximum that no revision of the history uses
+    fn alloc_num(&mut self, next_free: &mut u32, gaps: &mut Vec<u32>) -> u32 {
+        if !gaps.is_empty() && self.ch.maybe("container-number-from-gap", 1, 3) {
+            let i = self.ch.rng.usize_below(gaps.len());
+            return gaps.swap_remove(i);
+        }
+        *next_free += 1;
+        *next_free - 1
+    }
+}
+
 fn is_regular(c: u8) -> bool {
     !b" \t\n\r\x0c\x00()<>[]{}/%".contains(&c)
 }
@@ -638,6 +651,11 @@ impl<'a> RefWriter<'a> {
             }
         }
         let mut next_free_num: u32 = h.revisions.iter().flat_map(|r| r.objects.keys().map(|k| k.0)).max().unwrap_or(0) + 1;
+        // numbers below the maximum that no revision uses: a producer may give them to the containers it adds
+        // (object streams, cross-reference streams, length objects), so that a container appended by a later
+        // revision can have a LOWER number than one of an earlier revision
+        let used_nums: BTreeSet<u32> = h.revisions.iter().flat_map(|r| r.objects.keys().map(|k| k.0)).collect();
+        let mut gap_nums: Vec<u32> = (1..next_free_num).filter(|n| !used_nums.contains(n)).take(64).collect();
         // all entries so far: num -> entry
         #[derive(Clone, Debug)]
         enum Ent {
@@ -657,8 +675,7 @@ impl<'a> RefWriter<'a> {
             }
             let use_objstm = style == XrefStyle::Stream && objstm && self.ch.maybe("object-streams", 3, 4);
             let ghost: Option<u32> = if self.ghost_objects && use_objstm {
-                let g = next_free_num;
-                next_free_num += 1;
+                let g = self.alloc_num(&mut next_free_num, &mut gap_nums);
                 w.container_ids.insert(g);
                 Some(g)
             } else {
@@ -688,8 +705,7 @@ impl<'a> RefWriter<'a> {
                 let mut lr = None;
                 if let RObj::Stream(_, data) = o {
                     if self.ch.maybe("indirect-length", 1, 4) {
-                        let lid = (next_free_num, 0u16);
-                        next_free_num += 1;
+                        let lid = (self.alloc_num(&mut next_free_num, &mut gap_nums), 0u16);
                         w.container_ids.insert(lid.0);
                         let before = self.ch.maybe("indirect-length-defined-before", 1, 2);
                         length_objs.push((lid, data.len() as i64, before));
@@ -720,8 +736,7 @@ impl<'a> RefWriter<'a> {
                         ents.insert(id.0, Ent::InUse(off, id.1));
                     }
                     Item::Pack(nums) => {
-                        let sid = next_free_num;
-                        next_free_num += 1;
+                        let sid = self.alloc_num(&mut next_free_num, &mut gap_nums);
                         w.container_ids.insert(sid);
                         w.objstm_ids.push(sid);
                         // body of the object stream
@@ -882,13 +897,13 @@ impl<'a> RefWriter<'a> {
                     self.put(e);
                 }
                 XrefStyle::Stream => {
-                    let xid = next_free_num;
-                    next_free_num += 1;
+                    let xid = self.alloc_num(&mut next_free_num, &mut gap_nums);
                     w.container_ids.insert(xid);
                     startxref = self.pos();
                     ents.insert(xid, Ent::InUse(startxref, 0));
                     all_nums.insert(xid);
-                    let size = xid + 1;
+                    // (the stream's own number may come from a gap, so it is not necessarily the highest)
+                    let size = all_nums.iter().max().map(|m| m + 1).unwrap_or(1).max(size_hint);
                     let mut listed: BTreeMap<u32, Option<Ent>> = BTreeMap::new();
                     for (n, e) in &ents {
                         listed.insert(*n, Some(e.clone()));
